@@ -29,6 +29,7 @@ ENTRIES = [
     ("m3.eml", "01-Feb-2020 12:05:00 +0100"),
     ("m4.eml", "20-Jan-2020 00:10:00 +0900"),   # local day 20, UTC day 19
     ("m5.eml", "05-Jan-2020 10:00:00 +0000"),
+    ("m6.eml", "06-Jan-2020 12:00:00 +0000"),   # no header field at all: the text starts with the empty line
 ]
 
 # ---- body sections (index in this list + 1 = section id of the specification)
